@@ -154,7 +154,7 @@ func init() {
 		level: "model_checking",
 		procs: panicnilProcs,
 		rule: "every symbol string of the tier's alphabets/bounds and every character string ≤ 5 (quick) / 6 (thorough) over {a ' \" \\ $ { } ( ) ` # < newline blank}, each parsed from a string, a []byte, a one-byte-at-a-time io.Reader, a bufio.Reader and a custom io.RuneScanner, " +
-			"by ParseCommands and ParseCommand; the shorter strings additionally under 7 alias tables (self reference, 2- and 3-cycles, trailing blanks, operators, reserved words, newline, unterminated quote); one construct repeated or nested n = 1…24 (thorough 64) times for 32 constructs (here-documents per line and per group, substitutions, quotes, lists, case items, elif chains, every nesting form); every alias value of ≤ 3 (thorough 4) characters over {a blank newline ; ' # $ ( ` \\ | x \" < ) { }} in 3 tables × 7 sources; everything under GODEBUG=panicnil=0 and =1; " +
+			"by ParseCommands and ParseCommand; the shorter strings additionally under 7 alias tables (self reference, 2- and 3-cycles, trailing blanks, operators, reserved words, newline, unterminated quote); one construct repeated or nested n = 1…24 (thorough 64) times for 45 constructs (here-documents per line and per group, substitutions, quotes, lists, case items, elif chains, every nesting form); every alias value of ≤ 3 (thorough 4) characters over {a blank newline ; ' # $ ( ` \\ | x \" < ) { }} in 3 tables × 7 sources; everything under GODEBUG=panicnil=0 and =1; " +
 			"non-trivial = the source is not accepted (error paths are where the lexer bails out)",
 		assume: []string{"each case runs in a GOMAXPROCS=1 worker process; after the call the worker yields until the goroutines started by it are gone, so an asynchronous crash is attributed to its case",
 			"a blocked call shows as the Go runtime's deadlock abort or as the parent's no-progress watchdog; the schedule dimension of 'never blocks' is C06's"},
@@ -204,28 +204,11 @@ func init() {
 			if w.thorough() {
 				maxRep = 64
 			}
-			type rep struct{ open, unit, close string }
-			reps := []rep{
-				{"", "cat <<E\nx\nE\n", ""}, {"", "a; ", "\n"}, {"", "a | ", "b\n"}, {"", "a && ", "b\n"}, {"", "x=1 ", "a\n"}, {"a ", "$(b) ", "\n"}, {"a ", "`b` ", "\n"},
-				{"a ", "'q' ", "\n"}, {"a ", "$((1)) ", "\n"}, {"a ", "${v:-w} ", "\n"}, {"a ", ">f ", "\n"}, {"", "# c\n", "a\n"}, {"", "\n", "a\n"}, {"a ", "\\\n", "b\n"},
-				{"case x in ", "a) b ;; ", "esac\n"}, {"for i in ", "a ", "; do b; done\n"}, {"a ", "\"$v\" ", "\n"}, {"if a; then b; ", "elif c; then d; ", "fi\n"},
-			}
-			nests := [][2]string{{"( ", " )"}, {"{ ", "; }"}, {"if a; then ", "; fi"}, {"while a; do ", "; done"}, {"$( ", " )"}, {"`", "`"}, {"\"", "\""}, {"${v:-", "}"}, {"case x in a) ", " ;; esac"}, {"f() ", ""}, {"! ", ""}}
 			for n := 1; n <= maxRep; n++ {
 				if !w.Mine() || w.TimeUp() {
 					continue
 				}
-				var srcs []string
-				for _, r := range reps {
-					srcs = append(srcs, r.open+strings.Repeat(r.unit, n)+r.close)
-				}
-				// n here-documents on one line, their bodies after it
-				srcs = append(srcs, "cat"+strings.Repeat(" <<E", n)+"\n"+strings.Repeat("x\nE\n", n))
-				srcs = append(srcs, "a $(cat"+strings.Repeat(" <<E", n)+"\n"+strings.Repeat("x\nE\n", n)+")\n")
-				srcs = append(srcs, "{\n"+strings.Repeat("cat <<E\nx\nE\n", n)+"}\n")
-				for _, ne := range nests {
-					srcs = append(srcs, strings.Repeat(ne[0], n)+"a"+strings.Repeat(ne[1], n)+"\n")
-				}
+				srcs := repetitionSources(n)
 				for _, src := range srcs {
 					w.Announce(src)
 					w.Count("states", 1)
@@ -396,11 +379,17 @@ func c19Steps(src string, count func(string), violation func(c interface{}, deta
 			w.Count("distinct_words_expanded", 1)
 			for _, m := range c19Modes {
 				what = fmt.Sprintf("Expand (mode %d) of %s", m, wdump)
-				env := interp.NewExecEnv("sh", "p1", "p2")
-				_, e := env.Expand(wd, m)
-				w.Count("evaluations", 1)
-				if !documentedError(e) {
-					w.Violation("", map[string]string{"source": src, "step": what}, fmt.Sprintf("%s returns an undocumented error type %T: %v", what, e, e))
+				for _, args := range [][]string{{"p1", "p2"}, nil} {
+					env := interp.NewExecEnv("sh", args...)
+					if args == nil {
+						what += " (no positional parameters, nounset)"
+						env.Opts |= interp.NoUnset
+					}
+					_, e := env.Expand(wd, m)
+					w.Count("evaluations", 1)
+					if !documentedError(e) {
+						w.Violation("", map[string]string{"source": src, "step": what}, fmt.Sprintf("%s returns an undocumented error type %T: %v", what, e, e))
+					}
 				}
 			}
 		}
@@ -625,6 +614,17 @@ func c19Run(w *W) {
 			}
 		}
 	})
+	// the repetition family (counts above 9, deep nesting of every form)
+	for n := 1; n <= 24; n++ {
+		if !w.Mine() || w.TimeUp() {
+			continue
+		}
+		for _, src := range repetitionSources(n) {
+			w.Announce(src)
+			w.Count("states", 1)
+			c19Downstream(w, src)
+		}
+	}
 	// oddities named by the property
 	for _, src := range []string{"\\", "a \\", "''", `""`, "a <<E\nE\n", "a <<E\n\nE\n", "<<E\nE", "$", "a $", "`\\``", "${#}", "${#*}", "${#@}", "x= y=", "a<<''\n\n"} {
 		if w.Mine() {
@@ -669,4 +669,33 @@ func init() {
 		run:    c19Run,
 		replay: c19Replay,
 	})
+}
+
+// repetitionSources: one construct repeated or nested n times (shared by C01, C04, C05/C18, C07, C10, C19).
+func repetitionSources(n int) []string {
+	type rep struct{ open, unit, close string }
+	reps := []rep{
+		{"", "cat <<E\nx\nE\n", ""}, {"", "a; ", "\n"}, {"", "a | ", "b\n"}, {"", "a && ", "b\n"}, {"", "x=1 ", "a\n"}, {"a ", "$(b) ", "\n"}, {"a ", "`b` ", "\n"},
+		{"a ", "'q' ", "\n"}, {"a ", "$((1)) ", "\n"}, {"a ", "${v:-w} ", "\n"}, {"a ", ">f ", "\n"}, {"", "# c\n", "a\n"}, {"", "\n", "a\n"}, {"a ", "\\\n", "b\n"},
+		{"case x in ", "a) b ;; ", "esac\n"}, {"for i in ", "a ", "; do b; done\n"}, {"a ", "\"$v\" ", "\n"}, {"if a; then b; ", "elif c; then d; ", "fi\n"},
+		{"a ", "$v", "\n"}, {"a ", "é", "\n"}, {"", "a;\n", ""}, {"a ", "<<E ", "\n" + strings.Repeat("x\nE\n", n)}, {"x=", "$v:~", "\n"}, {"a $((", "1+", "1))\n"}, {"((", "1+", "1))\n"},
+	}
+	nests := [][2]string{{"( ", " )"}, {"{ ", "; }"}, {"if a; then ", "; fi"}, {"while a; do ", "; done"}, {"$( ", " )"}, {"`", "`"}, {"\"", "\""}, {"${v:-", "}"}, {"case x in a) ", " ;; esac"}, {"f() ", ""}, {"! ", ""},
+		{"for i in a; do ", "; done"}, {"a | ", ""}, {"$(( (", ") ))"}, {"{\n", "\n}"}, {"(\n", "\n)"}, {"if a\nthen\n", "\nfi"}}
+	var srcs []string
+	for _, r := range reps {
+		srcs = append(srcs, r.open+strings.Repeat(r.unit, n)+r.close)
+	}
+	// n here-documents on one line, their bodies after it
+	srcs = append(srcs, "cat"+strings.Repeat(" <<E", n)+"\n"+strings.Repeat("x\nE\n", n))
+	srcs = append(srcs, "a $(cat"+strings.Repeat(" <<E", n)+"\n"+strings.Repeat("x\nE\n", n)+")\n")
+	srcs = append(srcs, "{\n"+strings.Repeat("cat <<E\nx\nE\n", n)+"}\n")
+	for _, ne := range nests {
+		inner := "a"
+		if strings.HasPrefix(ne[0], "$((") {
+			inner = "1"
+		}
+		srcs = append(srcs, strings.Repeat(ne[0], n)+inner+strings.Repeat(ne[1], n)+"\n")
+	}
+	return srcs
 }
